@@ -35,6 +35,7 @@ TRUSTED = [
 ASSUMPTIONS = [
     "same grid object on both ends of the link (layout transforms are C15); one consumer",
     "no nearly-equal units (np.isclose in equivalent_units); zero-size arrays are not generated",
+    "a mask with no bit set and no mask at all are identified (numpy turns 0-d masked arrays with nothing masked into scalars)",
     "payload of shape (k, *data_shape), k > 1, on a structured grid is accepted as k stacked time entries (documented finam "
     "behaviour, modelled as is; the 'leading axis of length one' claim is for the other forms)",
     "a masked-array payload keeps its own mask whatever the info says (modelled as is, see report)",
@@ -319,6 +320,10 @@ CORPUS = [
              ["push", 10, _p([4], None, "masked", mask=[False, True, False, False], buf={"pool": 1, "start": 2, "step": 1, "copy": False})],
              ["pull", 9], ["pull", 10]]},
 ]
+# 0-d masked quantity, nothing masked, converted: numpy returns a plain scalar (mask None == all False)
+CORPUS.append({"grid": _NG0, "uo": "mm/d", "ui": "mm/d", "mask": "flex", "in_mask": "same",
+               "ops": [["push", 86400000000, _p([], [0], "qty_masked", mask=[False], units="m/s")], ["pull", 86400000000],
+                       ["push", 86400000001, _p([], [16], "qty_masked", mask=[True], units="m/s")], ["pull", 86400000001]]})
 # witness of finding F10 (fixed by bb44bc1): flat plain payload + fixed mask + F-ordered grid, the mask must sit on cell [0,1]
 CORPUS.append({"grid": _UF, "uo": "m", "ui": "m", "mask": [False, True, False, False, False, False], "in_mask": "same",
                "ops": [["push", 0, _p([6], [0, 8, 16, 24, 32, 40])], ["pull", 0],
@@ -326,7 +331,7 @@ CORPUS.append({"grid": _UF, "uo": "m", "ui": "m", "mask": [False, True, False, F
 
 
 def generate(rng, tier):
-    n = 900 if tier == "quick" else 18000
+    n = 2400 if tier == "quick" else 30000
     cases = list(CORPUS)
     for i in range(n):
         if i % 5 == 4:
@@ -595,7 +600,7 @@ def _check_delivery(case, obs, pub, r, cons):
         else:
             want_m = None
         got_m = None if r["mask"] is None else r["mask"][j]
-        if (want_m is None) != (got_m is None) or (want_m is not None and bool(want_m) != bool(got_m)):
+        if bool(want_m) != bool(got_m):  # no mask at all == nothing masked
             return f"mask at C-position {j}: delivered {got_m}, demanded {want_m}"
         if want_m:
             continue
